@@ -25,6 +25,8 @@ def prop_module(pid: str):
 def analyse(pid: str, prog: Program, tier: str) -> Cx:
     cx = Cx(pid, prog, tier)
     prop_module(pid).run(cx)
+    from props.common import check_no_new_protocol_dunders
+    check_no_new_protocol_dunders(cx)
     from .types import SEED_DEPENDENTS
     for sp in cx.seed_problems:
         rows = [r for r in getattr(cx.ti, 'bad_seed_rows', []) if f"{r[0]}.{r[1]}:" in sp]
